@@ -83,7 +83,7 @@ def gen_cases(tier, seed):
         # the nodata value itself varies (0 is falsy, -1 / 255 sit next to data); valid cells never equal it
         used = {v for v in vals if v is not None}
         nd = next(x for x in rng.sample([-3000, 0, -1, 255, 32767], 5) if x not in used)
-        cases.append({"tid": len(cases) + 1, "vals": vals, "accessor": accessor or rng.random() < 0.1, "nd": nd})
+        cases.append({"tid": len(cases) + 1, "vals": vals, "accessor": accessor or rng.random() < 0.1, "nd": nd, "fdtype": "float32" if len(cases) % 3 == 1 else "float64"})
 
     # the MC scope on the real code: all series of length 3..5/6 over {missing,0,1,2,5}
     import itertools
